@@ -185,24 +185,27 @@ func genChain(sh *Shape) {
 		}
 		sh.Call = "deriveCompose(" + strings.Join(sigs, ", ") + ")"
 		l, vs := lhs(c.Nres, true, ":=")
-		fmt.Fprintf(&body, "\t\t\t%sderiveCompose(%s)(%s)\n", l, strings.Join(fs, ", "), args)
-		fmt.Fprintf(&body, "\t\t\to.Ret = rt.Ints(%s)\n\t\t\to.Err = rt.PrErr(err)\n", strings.Join(prArgs(vs, fk, kinds), ", "))
+		fmt.Fprintf(&body, "\t\t\t%sderiveCompose(%s)(%s)\n\t\t\to.Pre = rt.Peek()\n", l, strings.Join(fs, ", "), args)
+		fmt.Fprintf(&body, "\t\t\to.Ret = rt.Ints(%s)\n\t\t\to.Ret2 = o.Ret\n\t\t\to.Err = rt.PrErr(err)\n", strings.Join(prArgs(vs, fk, kinds), ", "))
 	} else { // fmaperr: deriveFmap(f, g), f = stage 2, g = stage 1
 		sh.Call = "deriveFmap(" + sigs[1] + ", " + sigs[0] + ")"
 		switch {
 		case c.R == 0:
-			body.WriteString("\t\t\terr := deriveFmap(f2, f1)\n\t\t\to.Err = rt.PrErr(err)\n")
+			body.WriteString("\t\t\terr := deriveFmap(f2, f1)\n\t\t\to.Pre = rt.Peek()\n\t\t\to.Err = rt.PrErr(err)\n")
 		case c.R == 1:
-			fmt.Fprintf(&body, "\t\t\tr0, err := deriveFmap(f2, f1)\n\t\t\to.Ret = rt.Ints(%s)\n\t\t\to.Err = rt.PrErr(err)\n", prArgs([]string{"r0"}, fk, kinds)[0])
+			fmt.Fprintf(&body, "\t\t\tr0, err := deriveFmap(f2, f1)\n\t\t\to.Pre = rt.Peek()\n\t\t\to.Ret = rt.Ints(%s)\n\t\t\to.Ret2 = o.Ret\n\t\t\to.Err = rt.PrErr(err)\n", prArgs([]string{"r0"}, fk, kinds)[0])
 		default:
 			l, vs := lhs(c.R, false, ":=")
 			zeros := make([]string, c.R)
 			for i := range zeros {
 				zeros[i] = "0"
 			}
-			fmt.Fprintf(&body, "\t\t\tth, err := deriveFmap(f2, f1)\n\t\t\to.Err = rt.PrErr(err)\n")
-			fmt.Fprintf(&body, "\t\t\tif th == nil {\n\t\t\t\to.ThunkNil = true\n\t\t\t\to.Ret = rt.Ints(%s)\n\t\t\t\treturn\n\t\t\t}\n", strings.Join(zeros, ", "))
+			// two phases: the log when deriveFmap returned (f must already have run, once, after g), then the
+			// returned function is invoked twice: it must only hand out f's stored results
+			fmt.Fprintf(&body, "\t\t\tth, err := deriveFmap(f2, f1)\n\t\t\to.Pre = rt.Peek()\n\t\t\to.Err = rt.PrErr(err)\n")
+			fmt.Fprintf(&body, "\t\t\tif th == nil {\n\t\t\t\to.ThunkNil = true\n\t\t\t\to.Ret = rt.Ints(%s)\n\t\t\t\to.Ret2 = o.Ret\n\t\t\t\treturn\n\t\t\t}\n", strings.Join(zeros, ", "))
 			fmt.Fprintf(&body, "\t\t\t%sth()\n\t\t\to.Ret = rt.Ints(%s)\n", l, strings.Join(prArgs(vs, fk, kinds), ", "))
+			fmt.Fprintf(&body, "\t\t\t%sth()\n\t\t\to.Ret2 = rt.Ints(%s)\n", strings.Replace(l, ":=", "=", 1), strings.Join(prArgs(vs, fk, kinds), ", "))
 		}
 	}
 	b.WriteString(runLoop(rows, "\t\tfailAt = cs[1]\n", body.String(), "\t\to.Calls = rt.Take()\n"))
